@@ -58,6 +58,13 @@ func H_C01_quo() {
 	}
 	x := vDec("x", fFinite, wx, vCfgOr("capx", 0), px)
 	y := vDec("y", fFinite, wy, vCfgOr("capx", 0), py)
+	if vCfgOr("ypat0", -1) >= 0 {
+		// concrete divisor mantissa from the extremal pattern list: the real long
+		// division then involves no product of two unknowns
+		for i := 0; i < wy; i++ {
+			y.mant[i] = patWord(vCfg(vN("ypat", i)))
+		}
+	}
 	z := receiver(alias, x, y, p)
 	mode := z.mode
 	// the library extends the dividend by dd words so that the quotient has
